@@ -1,6 +1,6 @@
 #!/bin/sh
 # Regenerate coq/_CoqProject (all theories/**/*.v) and the Makefile when the file list changed.
-cd "$(dirname "$0")/../coq" || exit 2
+cd "${1:-$(dirname "$0")/../coq}" || exit 2
 {
   echo "-Q theories CG"
   echo "-arg -w -arg -notation-overridden,-deprecated-hint-without-locality,-ambiguous-paths,-redundant-canonical-projection,-deprecated-instance-without-locality"
